@@ -437,6 +437,12 @@ func (w *worker[T, JobType]) goRemoveIdleWorkers() {
 			}
 
 			nodes := w.pool.NodeSlice()
+
+			// the dispatcher may have taken idle workers since the length was read
+			if len(nodes) <= targetIdleWorkers {
+				continue
+			}
+
 			// If we have more nodes than our target, close the excess ones
 			for _, node := range nodes[targetIdleWorkers:] {
 				// only the goroutine that takes the node out of the idle list may stop it;
